@@ -1,39 +1,49 @@
 #!/usr/bin/env python3
-"""Runs every registered check against each confirmed seeded defect in /verif/seeded/*/patch.diff
-(applied to a scratch copy of /repo outside /repo and /verif) and prints/records which checks fire."""
+"""Development aid (never registered): runs every registered check against each confirmed seeded change in
+/verif/seeded/*/patch.diff, applied to a scratch copy of /repo outside /repo and /verif, and records which checks fire
+in /verif/seeded/DETECTION.json.  One checker process per seed (-property all), SEEDDETECT_JOBS seeds at a time.
+usage: seeddetect.py [seed-id ...]"""
 import json, os, shutil, subprocess, sys, tempfile, glob
-man = json.load(open("/verif/MANIFEST.json"))
-ids = [c["property_id"] for c in man["checks"]]
+from concurrent.futures import ThreadPoolExecutor
 only = sys.argv[1:]
 BIN = os.environ.get("CEDARCHECK_BIN", "/verif/bin/cedarcheck")
+JOBS = int(os.environ.get("SEEDDETECT_JOBS", "6"))
 work = tempfile.mkdtemp(prefix="seeddetect-")
-res = {}
-try:
-    for d in sorted(glob.glob("/verif/seeded/*/")):
-        sid = os.path.basename(d.rstrip("/"))
-        if only and sid not in only: continue
-        scratch = os.path.join(work, "repo")
-        shutil.rmtree(scratch, ignore_errors=True)
+
+def one(d):
+    sid = os.path.basename(d.rstrip("/"))
+    scratch = os.path.join(work, sid, "repo")
+    vdir = os.path.join(work, sid, "v")
+    os.makedirs(vdir)
+    try:
         subprocess.check_call(["rsync", "-a", "--exclude", ".git", "--exclude", "*.tar.gz", "/repo/", scratch + "/"])
         p = subprocess.run(["patch", "-p1", "-s", "-i", os.path.join(d, "patch.diff")], cwd=scratch, capture_output=True, text=True)
         if p.returncode != 0:
-            res[sid] = {"error": "patch does not apply: " + p.stdout[-300:]}
-            print(sid, "PATCH-FAILED"); continue
-        vdir = os.path.join(work, "v"); shutil.rmtree(vdir, ignore_errors=True); os.makedirs(vdir)
+            print(sid, "PATCH-FAILED", flush=True)
+            return sid, {"error": "patch does not apply: " + p.stdout[-300:]}
         shutil.copy("/verif/known_findings.json", vdir)
-        caught = {}
-        def run(pid):
-            vd = os.path.join(vdir, pid); os.makedirs(vd, exist_ok=True)
-            shutil.copy("/verif/known_findings.json", vd)
-            q = subprocess.run([BIN, "-property", pid, "-repo", scratch, "-verif", vd], capture_output=True, text=True)
-            return pid, q
-        from concurrent.futures import ThreadPoolExecutor
-        with ThreadPoolExecutor(max_workers=8) as ex:
-            for pid, q in ex.map(run, ids):
-                if q.returncode != 0:
-                    caught[pid] = [l.strip()[:260] for l in q.stdout.splitlines() if l.strip().startswith(("VIOLATION ", "UNDECIDED "))][:4]
-        res[sid] = caught
-        print(sid, "caught_by", list(caught.keys()))
+        q = subprocess.run([BIN, "-property", "all", "-repo", scratch, "-verif", vdir], capture_output=True, text=True)
+        caught, pending = {}, []
+        for l in q.stdout.splitlines():
+            s = l.strip()
+            if s.startswith("VIOLATION property="):
+                caught[s.split("property=")[1].split()[0]] = pending[:4]
+                pending = []
+            elif s.startswith(("VIOLATION ", "UNDECIDED ")):
+                pending.append(s[:260])
+        if q.returncode not in (0, 1):
+            caught["_exit"] = [str(q.returncode), q.stderr[-300:]]
+        print(sid, "caught_by", list(caught.keys()), flush=True)
+        return sid, caught
+    finally:
+        shutil.rmtree(os.path.join(work, sid), ignore_errors=True)
+
+res = {}
+try:
+    dirs = [d for d in sorted(glob.glob("/verif/seeded/*/")) if not only or os.path.basename(d.rstrip("/")) in only]
+    with ThreadPoolExecutor(max_workers=JOBS) as ex:
+        for sid, c in ex.map(one, dirs):
+            res[sid] = c
 finally:
     shutil.rmtree(work, ignore_errors=True)
 try:
